@@ -84,7 +84,7 @@ fn child(args: &[String], slots: Option<&str>) -> std::io::Result<std::process::
 /// Parent side. `args` are the simulator's own arguments (a batch or a replay).
 pub fn parent(scen: &dyn Scenario, tier: Tier, seed: u64, replay: Option<&str>, args: &[String]) -> i32 {
     let prop = scen.id();
-    let dir = format!("{}/logs", crate::runner::VERIF_ROOT);
+    let dir = format!("{}/logs", crate::runner::verif_root());
     let _ = std::fs::create_dir_all(&dir);
     let path = format!("{dir}/inflight-{}.bin", std::process::id());
     let init: Vec<u8> = std::iter::repeat(0xFFu8).take(N_SLOTS * 8).collect();
